@@ -53,7 +53,7 @@ def grid_update(ctx):
     if ctx.case in ("one-link", "two-links", "chain-not-followed"):
         links.append((TranslationLink(grid.points[4], grid.points[8]), 8))
     if ctx.case == "two-links":
-        links.append((SymmetryLink(grid.points[4], grid.points[0], [1.0, 0.0, 0.0], [1.0, 1.0, 0.0]), 0))
+        links.append((SymmetryLink(grid.points[4], grid.points[0], [0.0, 2.0, 0.0], [1.0, 1.0, 0.0]), 0))
     for l, fi in links:
         grid.junctions[4].add_link(l, fi)
     if ctx.case == "chain-not-followed":
@@ -68,7 +68,7 @@ def grid_update(ctx):
         ctx.prove("translation-follower-keeps-its-offset", ctx.eq(grid.points[8], new + (before[8] - before[4])))
         moved.add(8)
     if ctx.case == "two-links":
-        ctx.prove("symmetry-follower-is-the-mirror-image", ctx.eq(grid.points[0], G.reflect(new, [1.0, 0.0, 0.0], [1.0, 1.0, 0.0]), tol=1e-7))
+        ctx.prove("symmetry-follower-is-the-mirror-image", ctx.eq(grid.points[0], G.reflect(new, [0.0, 2.0, 0.0], [1.0, 1.0, 0.0]), tol=1e-7))
         moved.add(0)
     ctx.prove("no-other-point-moves", And([ctx.eq(grid.points[i], before[i], tol=0) for i in range(9) if i not in moved]))
     ctx.prove("every-follower-of-the-junction-updated", all(ctx.identical(x, y) or True for x, y in zip(grid.points[8], grid.points[8])))
